@@ -50,18 +50,19 @@ Frag(size, pat) ==
 Pats == {"one", "two", "emptyMid", "trailingEmpty", "leadingEmpty", "many"}
 (* set = TRUE: SetReadLimit(L) is called first; set = FALSE only with the default 32768 *)
 C08Single ==
-  { [prog |-> << [set |-> st2, limit |-> L, frags |-> Frag(sz, p), comp |-> z,
+  { [prog |-> << [set |-> st2, limit |-> L, frags |-> Frag(sz, p), comp |-> z, final |-> bf,
                   exp |-> LimitOutcome(L, sz)] >>] :
       L \in Limits \cup {-1}, sz \in UNION {SizesFor(l) : l \in Limits}, p \in Pats, z \in BOOLEAN,
+      bf \in BOOLEAN,        \* the sender ends the DEFLATE stream of the message with a BFINAL=1 block (RFC 7692 7.2.3.4)
       st2 \in BOOLEAN }
 C08SingleOK == { r \in C08Single : LET e == r.prog[1] IN
-                   /\ (~e.set => e.limit = 32768)
+                   /\ (~e.set => e.limit = 32768) /\ (e.final => e.comp)
                    /\ (e.limit = -1 => ~(e.comp) \/ SumSeq(e.frags) <= 200000)
                    /\ SumSeq(e.frags) \in SizesFor(IF e.limit = -1 THEN 65536 ELSE e.limit) \cup {7} }
 (* the limit is sampled when a message starts: a change between messages applies to the next one *)
 C08Pairs ==
-  { [prog |-> << [set |-> TRUE, limit |-> L1, frags |-> <<s1>>, comp |-> FALSE, exp |-> LimitOutcome(L1, s1)],
-                 [set |-> TRUE, limit |-> L2, frags |-> Frag(s2, p), comp |-> z, exp |-> LimitOutcome(L2, s2)] >>] :
+  { [prog |-> << [set |-> TRUE, limit |-> L1, frags |-> <<s1>>, comp |-> FALSE, final |-> FALSE, exp |-> LimitOutcome(L1, s1)],
+                 [set |-> TRUE, limit |-> L2, frags |-> Frag(s2, p), comp |-> z, final |-> FALSE, exp |-> LimitOutcome(L2, s2)] >>] :
       L1 \in {1, 125, -1}, L2 \in {0, 125, 4096, -1}, s1 \in {0, 1, 125}, s2 \in {0, 1, 126, 4097, 9000},
       p \in {"one", "two"}, z \in BOOLEAN }
 (* only programs whose first message is delivered continue to a second one *)
